@@ -557,31 +557,79 @@ func (x *Exec) VerifyFunc(fn *ssa.Function, c *FuncContract) (err error) {
 			st.lets[p.Name()] = vars[p.Name()]
 		}
 	}
-	env := &Env{x: x, st: st, vars: vars, pkg: fn.Pkg.Pkg}
-	for _, l := range c.lets {
-		v, e := env.EvalAny(l.expr, nil)
-		if e != nil {
-			return fmt.Errorf("%s:%d: let %s: %v", l.file, l.line, l.text, e)
-		}
-		st.lets[l.name] = v
-		vars[l.name] = v
-	}
-	for _, r := range c.requires {
-		t, e := env.EvalBool(r.expr)
-		if e != nil {
-			return fmt.Errorf("%s:%d: requires %s: %v", r.file, r.line, r.text, e)
-		}
-		st.assume(t)
-	}
-	st.entry = st.clone()
-	// vacuity: the precondition must be satisfiable
-	x.coverPre(st)
 	fr.block = fn.Blocks[0]
 	x.maxPaths = 4000
 	if c.maxPaths > 0 {
 		x.maxPaths = c.maxPaths
 	}
-	x.run(st)
+	// case splits come first: one run per combination of values (the chosen constants are substituted
+	// for the split expression wherever it is recomputed); exhaustiveness is an obligation
+	states := []*State{st}
+	env0 := &Env{x: x, st: st, vars: vars, pkg: fn.Pkg.Pkg}
+	for si, sp := range c.splits {
+		v, e := env0.EvalAny(sp.expr, nil)
+		if e != nil {
+			return fmt.Errorf("%s:%d: split %s: %v", sp.file, sp.line, sp.text, e)
+		}
+		var alts []*Term
+		var next []*State
+		for _, ve := range sp.exprs {
+			cv, e := env0.EvalAny(ve, v.ty)
+			if e != nil {
+				return fmt.Errorf("%s:%d: split value: %v", sp.file, sp.line, e)
+			}
+			eq := eqSV(v, cv)
+			alts = append(alts, eq)
+			for _, s0 := range states {
+				s1 := s0.clone()
+				s1.assume(eq)
+				if len(v.l) == 1 && len(cv.l) == 1 && cv.l[0].isConst() && !v.l[0].isConst() {
+					if s1.rewrites == nil {
+						s1.rewrites = map[int]*Term{}
+					}
+					s1.rewrites[v.l[0].id] = cv.l[0]
+				}
+				next = append(next, s1)
+			}
+		}
+		st.entry = st
+		x.oblige(st, fmt.Sprintf("split:%s#%d", x.targetName(), si+1), "pre", "case split "+sp.text+" is exhaustive", token.NoPos, Or(alts...))
+		st.entry = nil
+		states = next
+	}
+	for k, s1 := range states {
+		// per case: lets, preconditions, entry snapshot
+		vars1 := map[string]SV{}
+		for n, v := range vars {
+			vars1[n] = v
+		}
+		s1.lets = map[string]SV{}
+		for n, v := range st.lets {
+			s1.lets[n] = v
+		}
+		env := &Env{x: x, st: s1, vars: vars1, pkg: fn.Pkg.Pkg}
+		for _, l := range c.lets {
+			v, e := env.EvalAny(l.expr, nil)
+			if e != nil {
+				return fmt.Errorf("%s:%d: let %s: %v", l.file, l.line, l.text, e)
+			}
+			s1.lets[l.name] = v
+			vars1[l.name] = v
+		}
+		for _, r := range c.requires {
+			t, e := env.EvalBool(r.expr)
+			if e != nil {
+				return fmt.Errorf("%s:%d: requires %s: %v", r.file, r.line, r.text, e)
+			}
+			s1.assume(t)
+		}
+		s1.entry = s1.clone()
+		if k == 0 {
+			// vacuity: the precondition must be satisfiable
+			x.coverPre(s1)
+		}
+		x.run(s1)
+	}
 	if x.pathEnds == 0 {
 		return fmt.Errorf("%s: no path reached a return", fn)
 	}
